@@ -32,7 +32,9 @@ CLAIM = dict(
           "rules the output starts with exactly these comment tokens each followed by a newline token, contains no other "
           "comment token, has as many code tokens as the input, and the title/byline rule of stats reads the two comments "
           "(C19_titles); C19_holds - holds_C19 is true of the model's output; C19_total; C19_end_to_end - composed with the "
-          "lexer worker's lex_agrees_code (C07), from the source bytes, no hypothesis about the lexer left. "
+          "lexer worker's lex_agrees_code (C07), from the source bytes, no hypothesis about the lexer left; C19_lines / "
+          "C19_end_to_end_chunks / C19_header_chunks - the same (holds_C19, and the header statement itself) for the source "
+          "as per-line chunks, by C07_chunking. "
           "Tie: correspondence of lexer model + writer model with the real writer on the header-shape enumerator (0-3 leading "
           "comments x comment forms x blank lines/spaces x LF/CRLF x code on the same/next line), generated programs and both "
           "CLI paths; the extracted holds_C19 on the implementation's real output plus Lua.get_title()/get_byline()."),
